@@ -225,7 +225,13 @@ where
     type Stream = Self;
 
     fn into_parts(self) -> (Vector<VectorDiffContainerStreamElement<S>>, Self::Stream) {
-        (self.buffered_vector.clone(), self)
+        // The values handed to the next observer are the current view, not the
+        // internal copy of the source. Without a count, the view is empty.
+        let values = match self.count {
+            Some(count) => self.buffered_vector.clone().skeep(count),
+            None => Vector::new(),
+        };
+        (values, self)
     }
 }
 
